@@ -552,8 +552,20 @@ def evaluate(cases, exe, drv, V, tag):
     shutil.rmtree(root, ignore_errors=True)
     os.makedirs(root)
     outs = [os.path.join(root, "r%d" % i) for i in range(len(cases))]
+    # every third output folder already exists and holds what a previous (longer) run left there — with or without its statistics
+    # file (a run with in-memory statistics writes none): the files of THIS run must still be exactly the pairs 1..K
+    stale_dirs = 0
+    for i, o in enumerate(outs):
+        if i % 3 == 1:
+            stale_dirs += 1
+            for sub in ("cell_data", "face_data"):
+                os.makedirs(os.path.join(o, sub), exist_ok=True)
+                for k in (1, 2, 3, 40, 41):
+                    open(os.path.join(o, sub, "result_%d.vtk" % k), "w").write("# stale file of a previous run\n")
+            if i % 6 == 4:
+                open(os.path.join(o, "simulation_statistics.csv"), "w").write("stale\n")
     lines = [request_line(c, o) for c, o in zip(cases, outs)]
-    st = {"files": 0, "files_parsed": 0, "rows": 0, "values": 0, "iterations": 0, "runs_ok": 0, "oracle_failures": 0,
+    st = {"stale_dirs": stale_dirs, "files": 0, "files_parsed": 0, "rows": 0, "values": 0, "iterations": 0, "runs_ok": 0, "oracle_failures": 0,
           "model_disagreements": 0, "crashes": 0, "unstable": 0, "reread": 0, "events": {"division": 0, "removal": 0, "empty": 0, "growth": 0},
           "ratio_classes": {}, "distinct": set(), "samples": []}
     try:
@@ -680,6 +692,7 @@ def run(ctx):
             "Python reading of the VTK/CSV text and of printf formatting (%.3e / %.2e of a double)"],
         "theorems": proof["axioms"], "proof_failures": proof["failures"], "translator": gen,
         "evaluations": st["runs_ok"], "distinct_nontrivial": st["distinct"],
+        "output_folders_with_stale_files_of_a_previous_run": st["stale_dirs"],
         "rule": "seeded runs of the real solver::run: S/dt in {1, 1.5, 2, 3, pi, 7.3, 10, 25, 50.0001, 1+1e-10, uniform[1,60]}, dt physical (1e-7 scale, real forces) "
                 "or arbitrary (1e-9..1e2, decimal fractions, inert cells), 1..%d iterations with T/dt integer / half-integer / random, 1-3 cells (cube, icosphere), "
                 "forced removals / divisions at first, last, recorded (0, 50, 100) and random iterations, whole population removed, growth, natural shrinking below the "
